@@ -2,7 +2,7 @@
 # pre-screen seed patches against the checks without touching /repo:
 # usage: seedscan.sh <seed_dir>...   (each holds patch.diff)
 # uses one scratch worktree /tmp/wt/scan (removed at the end)
-WT=/tmp/wt/scan
+WT=${WT:-/tmp/wt/scan}
 git -C /repo worktree remove --force $WT >/dev/null 2>&1
 git -C /repo worktree add --detach $WT HEAD >/dev/null 2>&1 || exit 2
 for d in "$@"; do
